@@ -156,6 +156,10 @@ pub fn run(ctx: &Ctx, out: &mut Outcome, cfg: SimCfg, plan: &Plan, run_seed: u64
     let retx_before = out.get("retransmissions");
     let mut r = Rng::new(run_seed ^ 0x7AFF1C);
     let tag = r.next_u64();
+    let micro = plan.flood && r.chance(1, 3);
+    if micro {
+        out.count("flood_micro_runs");
+    }
     let mut submitted = 0u64;
     let mut per: HashMap<(usize, u8), u64> = HashMap::new();
 
@@ -182,7 +186,12 @@ pub fn run(ctx: &Ctx, out: &mut Outcome, cfg: SimCfg, plan: &Plan, run_seed: u64
                     }
                     let (ch, _kind, max_mem) = *r.pick(&chans);
                     let len = if plan.flood && !r.chance(1, 200) {
-                        r.urange(0, 40)
+                        // "micro" floods: 0..2-byte messages, several hundred of them share one packet
+                        if micro {
+                            r.urange(0, 2)
+                        } else {
+                            r.urange(0, 40)
+                        }
                     } else {
                         payload::pick_len(&mut r, plan.max_len.min(max_mem / 2), plan.allow_large)
                     };
